@@ -2,6 +2,8 @@ import RoaringModel.Lemmas.DecodeWF
 import RoaringModel.Lemmas.CodecKernel
 import RoaringModel.Lemmas.RoundTrip
 import RoaringModel.Lemmas.Dir
+import RoaringModel.Lemmas.TreemapCodec
+import RoaringModel.Lemmas.TreemapCodecWF
 /-!
 # C13 — the checked decoder never accepts a malformed stream as a broken set (32-bit half)
 
@@ -78,6 +80,121 @@ example : deserialize true true [59, 48, 0, 0, 1, 3, 0, 3, 0, 2, 0, 2, 0, 2, 0, 
     .ok ([{ key := 3, store := .array [2, 3, 4, 9] }], [170, 187]) := by rfl
 example : deserialize true true
     [58, 48, 0, 0, 2, 0, 0, 0, 5, 0, 0, 0, 1, 0, 0, 0, 24, 0, 0, 0, 26, 0, 0, 0, 1, 0, 7, 0] = .error .invalidData := by
+  rfl
+
+end Roaring.C13
+
+/-!
+# C13, 64-bit half — `RoaringTreemap::deserialize_from` on any byte string
+
+Lifted from the 32-bit theorems through the bucket loop (`Lemmas/TreemapCodec.lean`).  The loop counter is the
+declared `u64` count itself; nothing is allocated from it and every iteration reads at least 12 bytes or fails,
+so a count larger than the data ends in `eof` (`C13_t_reads_declared`: only the declared structure is read).
+-/
+namespace Roaring.C13
+open Roaring Roaring.Parser
+
+/-- The checked treemap decoder has no panic path, for every input and both build configurations. -/
+theorem C13_t_no_panic (dbg : Bool) (bs : List Nat) : Treemap.deserialize true dbg bs ≠ .error .panic :=
+  Treemap.np_deserializeG (fun n => np_readN n) dbg bs
+
+/-- It reads only the declared structure: what it leaves unread is a suffix of the input, the value does not
+    depend on that suffix, and cutting into the consumed part is an EOF error. -/
+theorem C13_t_reads_declared (dbg : Bool) (bs rest : List Nat) (t : Treemap)
+    (h : Treemap.deserialize true dbg bs = .ok (t, rest)) :
+    ∃ used, bs = used ++ rest ∧ (∀ ys, Treemap.deserialize true dbg (used ++ ys) = .ok (t, ys)) ∧
+      (∀ k, k < used.length → Treemap.deserialize true dbg (used.take k) = .error .eof) :=
+  Treemap.mono_deserializeG true dbg bs t rest h
+
+/-- The lifting step, unconditional: if every value the checked 32-bit decoder accepts satisfies `wf32`, then
+    every value the checked treemap decoder accepts has strictly ascending `u32` keys and partitions that are
+    `wf32` and not the empty bitmap (so: duplicate / descending keys in the stream never survive, an empty inner
+    bitmap is never kept), the rest is a suffix of the input, and there is no panic. -/
+theorem C13_64_lift {wf32 : Bitmap → Prop} (dbg : Bool) (hP : Post wf32 (deserializeG readN true dbg))
+    (bs : List Nat) (hb : ∀ x ∈ bs, x < 256) :
+    match Treemap.deserialize true dbg bs with
+    | .ok (t, rest) => Treemap.SerWF wf32 t ∧ rest <:+ bs
+    | .error e => e ≠ .panic := by
+  cases h : Treemap.deserialize true dbg bs with
+  | ok r =>
+    obtain ⟨t, rest⟩ := r
+    exact ⟨(Treemap.post_deserializeG true dbg hP bs t rest hb h).1,
+           rest_suffix _ (Treemap.mono_deserializeG true dbg) bs t rest h⟩
+  | error e =>
+    intro he
+    subst he
+    exact C13_t_no_panic dbg bs h
+
+/-- Full statement for the treemap decoder, unconditional: for every byte string the checked treemap decoder
+    returns an error that is not a panic, or a well-formed treemap (`Treemap.WFd Bitmap.WF` = `Treemap.TWF`:
+    partition keys strictly ascending `u32`s, every partition `Bitmap.WF` with an element) together with an unread
+    rest that is a suffix of the input.  The 32-bit layer is `C13_32` (`post_deserialize runStore_wf`), the 64-bit
+    layer is `C13_64_lift`. -/
+theorem C13_64 (dbg : Bool) (bs : List Nat) (hb : ∀ x ∈ bs, x < 256) :
+    match Treemap.deserialize true dbg bs with
+    | .ok (t, rest) => Treemap.WFd Bitmap.WF t ∧ rest <:+ bs
+    | .error e => e ≠ .panic := by
+  have h := C13_64_lift (wf32 := Bitmap.WF) dbg
+    (post_weaken _ (post_deserialize runStore_wf dbg) (fun _ hb => hb.toWF)) bs hb
+  cases hd : Treemap.deserialize true dbg bs with
+  | ok r =>
+    obtain ⟨t, rest⟩ := r
+    rw [hd] at h
+    exact ⟨(Treemap.serWF_iff t).mp h.1, h.2⟩
+  | error e =>
+    rw [hd] at h
+    exact h
+
+/-- the same, as an implication -/
+theorem C13_64_wf (dbg : Bool) (bs rest : List Nat) (t : Treemap) (hb : ∀ x ∈ bs, x < 256)
+    (h : Treemap.deserialize true dbg bs = .ok (t, rest)) : Treemap.WFd Bitmap.WF t ∧ rest <:+ bs := by
+  have := C13_64 dbg bs hb
+  rw [h] at this
+  exact this
+
+/-- the full property as a `Prop` -/
+def C13_64_statement : Prop :=
+  ∀ (dbg : Bool) (bs : List Nat), (∀ x ∈ bs, x < 256) →
+    match Treemap.deserialize true dbg bs with
+    | .ok (t, rest) => Treemap.WFd Bitmap.WF t ∧ rest <:+ bs
+    | .error e => e ≠ .panic
+
+theorem C13_64_statement_holds : C13_64_statement := C13_64
+
+/-- Corollary: an accepted treemap is a *good* value.  Its keys are strictly ascending `u32`s, no partition is
+    empty, its element list is strictly ascending and inside `u64`, membership is partition-wise membership, and
+    it re-serialises to a stream that both decoders, in both build configurations, decode to the very same
+    value, leaving untouched whatever follows. -/
+theorem C13_t_reserialize (dbg : Bool) (bs rest : List Nat) (t : Treemap) (hb : ∀ x ∈ bs, x < 256)
+    (h : Treemap.deserialize true dbg bs = .ok (t, rest)) :
+    Treemap.WFd Bitmap.WF t ∧ (Treemap.elems t).Pairwise (· < ·) ∧
+    (∀ y ∈ Treemap.elems t, y < 18446744073709551616) ∧
+    (∀ y, y ∈ Treemap.elems t ↔
+      ∃ b, Treemap.get t (y / 4294967296) = some b ∧ y % 4294967296 ∈ Bitmap.elems b) ∧
+    ∀ (chk' dbg' : Bool) (ys : List Nat),
+      Treemap.deserialize chk' dbg' (Treemap.serialize t ++ ys) = .ok (t, ys) := by
+  have hwf := (C13_64_wf dbg bs rest t hb h).1
+  exact ⟨hwf, Treemap.sorted_elems Treemap.elems32 hwf, Treemap.elems_lt Treemap.elems32 hwf,
+    Treemap.mem_elems Treemap.elems32 hwf, fun chk' dbg' ys => Treemap.deserialize_serialize_wf chk' dbg' t hwf ys⟩
+
+/-- non-vacuity, checked by evaluation: descending keys `[3, 1]` with an empty bucket (key 4) in between and two
+    trailing bytes are accepted as the sorted two-partition value, leaving the trailing bytes; a count of `2^63`
+    with one bucket of data is `eof`; a duplicate key keeps the later bucket. -/
+example : Treemap.deserialize true true
+    ([3, 0, 0, 0, 0, 0, 0, 0,
+      3, 0, 0, 0, 58, 48, 0, 0, 1, 0, 0, 0, 0, 0, 0, 0, 16, 0, 0, 0, 7, 0,
+      4, 0, 0, 0, 58, 48, 0, 0, 0, 0, 0, 0,
+      1, 0, 0, 0, 58, 48, 0, 0, 1, 0, 0, 0, 0, 0, 0, 0, 16, 0, 0, 0, 9, 0, 170, 187]) =
+    .ok ([(1, [{ key := 0, store := .array [9] }]), (3, [{ key := 0, store := .array [7] }])], [170, 187]) := by
+  rfl
+example : Treemap.deserialize true true
+    [0, 0, 0, 0, 0, 0, 0, 128, 3, 0, 0, 0, 58, 48, 0, 0, 1, 0, 0, 0, 0, 0, 0, 0, 16, 0, 0, 0, 7, 0] = .error .eof := by
+  rfl
+example : Treemap.deserialize true true
+    [2, 0, 0, 0, 0, 0, 0, 0,
+     1, 0, 0, 0, 58, 48, 0, 0, 1, 0, 0, 0, 0, 0, 0, 0, 16, 0, 0, 0, 7, 0,
+     1, 0, 0, 0, 58, 48, 0, 0, 1, 0, 0, 0, 0, 0, 0, 0, 16, 0, 0, 0, 9, 0] =
+    .ok ([(1, [{ key := 0, store := .array [9] }])], []) := by
   rfl
 
 end Roaring.C13
